@@ -677,6 +677,30 @@ theorem tagXml_eq {tagNames : Table} (hc : cleanNames tagNames = true) (t : Nat)
   | none => rfl
   | some n => simp only [clean_ne_empty (cleanName_facts (cleanNames_lookup hc hl)), Bool.false_eq_true, if_false]
 
+/-- what `Tag()` answers is 0 or a 24-bit number, whatever the text (since /repo a1c0e70). -/
+theorem tagFromText_range {tagByName : Table} (hb : ∀ p ∈ tagByName, p.2 < 2 ^ 24) (s : List Nat) :
+    0 ≤ tagFromText tagByName s ∧ tagFromText tagByName s < 16777216 := by
+  unfold tagFromText
+  split
+  · omega
+  · split
+    · rename_i n hn
+      unfold parseUint at hn
+      split at hn
+      · cases hn
+      · split at hn
+        · split at hn
+          · simp only [Option.some.injEq] at hn; subst hn
+            rename_i hlt; simp at hlt; omega
+          · cases hn
+        · cases hn
+    · omega
+  · split
+    · rename_i t ht
+      have := hb _ (lookup_mem ht)
+      simp at this; omega
+    · omega
+
 /-! ## bit masks: the writer loop as a list of parts -/
 
 /-- `strings.Join(parts, sep)`. -/
